@@ -155,7 +155,9 @@ def run(prog, rep):
     gg = [f for f in prog.fns.values() if f.self_path == "tsg::variables::Globals" and f.name == "get" and f.trait is None]
     if len(gg) == 1:
         r = canon(Tracer(gg[0].body).local(0))
-        rep.check(re.match(r"^Option::or_else\(HashMap::get\(&\*arg:self\.values, &\*arg:name\), get::\{closure#0\}\{&\*?arg:self, &\*?arg:name\}\)$", r) is not None, "C16.N", "Globals::get", gg[0].loc(), "own map, else context", "Globals::get is `%s`" % r[:140])
+        from ..engines.e5_writers import lookup_shape
+        why = lookup_shape(prog, gg[0])
+        rep.check(why is None, "C16.N", "Globals::get", gg[0].loc(), "own map, else context", "Globals::get is `%s` (%s)" % (r[:100], why))
     # globals first, guards before local writes
     # nested(): the new set always keeps the given set as its context
     nf = [f for f in prog.fns.values() if f.name == "nested" and f.self_path == "tsg::variables::Globals"]
